@@ -1,1 +1,23 @@
 import Martian.Props.C19
+open Martian.Props.C19
+#print axioms facts_marbl_layout
+#print axioms decode_encode_header
+#print axioms decode_encode_data
+#print axioms reader_total
+#print axioms reader_loop_ends_with_error
+#print axioms F19_wrapped_sum_panics
+#print axioms F19_witness_now_error
+#print axioms stream_roundtrip
+#print axioms interleaved_messages_recovered
+#print axioms data_indices_contiguous_from_zero
+#print axioms concat_data_eq_bytes_read
+#print axioms terminal_pointwise
+#print axioms last_terminal_iff_eof
+#print axioms terminal_iff_eof
+#print axioms wrapper_transparent
+#print axioms messageFrames_key
+#print axioms messageFrames_valid
+#print axioms logged_message_roundtrip
+#print axioms nobody_request_is_empty_body
+#print axioms exA
+#print axioms exB
